@@ -366,4 +366,122 @@ theorem wrapSeq_mem (m : Mode) (v : Val) (vs : List Val) (hl : isList v = false)
       · cases hw
       · cases hw; simp
 
+/-! ### forbidden additional keys -/
+
+theorem failIf_ok {β} (b : Bool) (o : Out β × Nat) (r : β) :
+    (failIf b o).1 = .ok r ↔ b = false ∧ o.1 = .ok r := by
+  rcases o with ⟨o, n⟩
+  cases b <;> cases o <;> simp [failIf]
+
+theorem failIf_snd {β} (b : Bool) (o : Out β × Nat) : (failIf b o).2 = o.2 := by
+  rcases o with ⟨o, n⟩
+  cases b <;> cases o <;> rfl
+
+theorem failIf_false {β} (o : Out β × Nat) : failIf false o = o := rfl
+
+theorem failIf_isOk_false {β} (b : Bool) (o : Out β × Nat) (h : o.1.isOk = false) : (failIf b o).1.isOk = false := by
+  rcases o with ⟨o, n⟩
+  cases b <;> cases o <;> simp_all [failIf, Out.isOk]
+
+theorem failIf_good {β} (w : β → Bool) (b : Bool) (o o' : Out β × Nat) (h : Good w o.1 o'.1) :
+    Good w (failIf b o).1 (failIf b o').1 := by
+  cases b with
+  | false => exact h
+  | true =>
+    constructor
+    · intro r hr; simp [failIf_ok] at hr
+    · intro r hr; simp [failIf_ok] at hr
+
+/-! ### sequences standing for mappings (`transform_dataclass`, `to_dict`) -/
+
+theorem unwrapData_scalar (m : Mode) (v : Val) (h : isScalarVal v = true) : unwrapData m v = some v := by
+  cases v <;> simp_all [unwrapData, isScalarVal]
+
+theorem unwrapData_dict (m : Mode) (kvs : List (Key × Val)) : unwrapData m (.dict kvs) = some (.dict kvs) := rfl
+
+theorem toDict_dict (m : Mode) (kvs : List (Key × Val)) : toDict m (.dict kvs) = some kvs := rfl
+
+theorem toDict_scalar (m : Mode) (v : Val) (h : isScalarVal v = true) : toDict m v = none := by
+  cases v <;> simp_all [toDict, isScalarVal]
+
+/-- whatever preferences let the conversion through, it yields the same mapping -/
+theorem toDict_indep (m m2 : Mode) (v : Val) (kvs kvs2 : List (Key × Val)) (h : toDict m v = some kvs)
+    (h2 : toDict m2 v = some kvs2) : kvs2 = kvs := by
+  cases v with
+  | tok n => simp [toDict] at h
+  | none => simp [toDict] at h
+  | dict l => simp [toDict] at h h2; rw [← h, ← h2]
+  | list l =>
+    cases l with
+    | nil =>
+      simp only [toDict] at h h2
+      split at h <;> split at h2 <;> simp_all
+    | cons w ws =>
+      simp only [toDict] at h h2
+      split at h
+      · cases h
+      · split at h
+        · cases h
+        · split at h2
+          · cases h2
+          · split at h2
+            · cases h2
+            · cases w with
+              | dict l2 => simp at h h2; rw [← h, ← h2]
+              | list l2 =>
+                cases l2 with
+                | nil => simp at h h2; rw [h, h2]
+                | cons a b => simp at h
+              | tok n => simp at h
+              | none => simp at h
+
+theorem toDict_cross (m m2 : Mode) (w : Val) (ws : List Val) (l l' : List (Key × Val))
+    (h : toDict m (.list (w :: ws)) = some l) (h' : toDict m2 w = some l') : l' = l := by
+  simp only [toDict] at h
+  split at h
+  · cases h
+  · split at h
+    · cases h
+    · cases w with
+      | dict k0 => simp at h; simp [toDict] at h'; rw [← h, ← h']
+      | list l0 =>
+        cases l0 with
+        | nil =>
+          simp at h
+          simp only [toDict] at h'
+          split at h'
+          · cases h'
+          · simp at h'; rw [h, h']
+        | cons a b => simp at h
+      | tok n => simp at h
+      | none => simp at h
+
+theorem unwrapData_cases (m : Mode) (w : Val) (ws : List Val) (v1 : Val)
+    (h : unwrapData m (.list (w :: ws)) = some v1) : v1 = w ∨ v1 = .list (w :: ws) := by
+  simp only [unwrapData] at h
+  split at h
+  · simp at h; exact Or.inr h.symm
+  · split at h
+    · cases h
+    · simp at h; exact Or.inl h.symm
+
+/-- the same for the whole preparation of a data-class input (context preferences `m`, class preferences `m'`) -/
+theorem dataPrep_indep (m m2 m' : Mode) (v v1 v2 : Val) (kvs kvs2 : List (Key × Val))
+    (hu : unwrapData m v = some v1) (ht : toDict m' v1 = some kvs)
+    (hu2 : unwrapData m2 v = some v2) (ht2 : toDict m' v2 = some kvs2) : kvs2 = kvs := by
+  cases v with
+  | tok n => simp [unwrapData] at hu hu2; subst hu; subst hu2; simp [toDict] at ht
+  | none => simp [unwrapData] at hu hu2; subst hu; subst hu2; simp [toDict] at ht
+  | dict l => simp [unwrapData] at hu hu2; subst hu; subst hu2; exact toDict_indep _ _ _ _ _ ht ht2
+  | list l =>
+    cases l with
+    | nil => simp [unwrapData] at hu hu2; subst hu; subst hu2; exact toDict_indep _ _ _ _ _ ht ht2
+    | cons w ws =>
+      rcases unwrapData_cases m w ws v1 hu with h1 | h1 <;>
+        rcases unwrapData_cases m2 w ws v2 hu2 with h2 | h2 <;> subst h1 <;> subst h2
+      · exact toDict_indep _ _ _ _ _ ht ht2
+      · exact (toDict_cross _ _ _ _ _ _ ht2 ht).symm
+      · exact toDict_cross _ _ _ _ _ _ ht ht2
+      · exact toDict_indep _ _ _ _ _ ht ht2
+
 end Utv.C18
